@@ -207,10 +207,14 @@ package keeper
 
 //@ func (k Keeper).TryRecoverAddressWithBothIDs(sig, msgHash) (addrs, err)
 //@ trusted
+//@ requires [signature_has_the_64_bytes_the_recovery_reads] len(sig) >= 64
 //@ ensures [both_recovery_ids] err == nil ==> len(addrs) == 2 && bytes(addrs[0]) == recovered(sig, bytes(msgHash), 0) && bytes(addrs[1]) == recovered(sig, bytes(msgHash), 1)
 //@ ensures [reads_only] nothing_written()
 
+// The recovery slices the first 64 bytes of each signature (and panics on a shorter one: the keeper's own tests pin
+// that): callers -- the proposal handlers, fed with arbitrary vote-extension bytes -- must establish the lengths.
 //@ func (k Keeper).EVMAddressFromSignatures(ctx, sigA, sigB) (addr, err)
+//@ requires [signatures_have_the_64_bytes_the_recovery_reads] len(sigA) >= 64 && len(sigB) >= 64
 //@ ensures [the_address_is_recovered_from_signature_a] err == nil ==> bytes(addr) == recovered(sigA, hash_a(), 0) || bytes(addr) == recovered(sigA, hash_a(), 1)
 //@ ensures [and_from_signature_b] err == nil ==> bytes(addr) == recovered(sigB, hash_b(), 0) || bytes(addr) == recovered(sigB, hash_b(), 1)
 //@ ensures [reads_only] nothing_written()
